@@ -12,6 +12,24 @@ CHECKS = {
  "C02": ("derivability fix-point reference model (MAY table) vs. observed outcome and call log",
          "For every scenario with a target parameter outside the MAY least fix-point the monitor requires a non-nil error, no target execution, no fabricated argument, and the dedicated error type when every converter is MUST-satisfiable; hostile shapes (mutual cycles, unreachable prerequisites) are generated on purpose; crashes are caught by the process supervisor.",
          "Underivable is judged by the harness's own fix-point over labels; sampled scenarios only.", "5/C02"),
+ "C03": ("provenance monitor over a constructive exact-match generator with adversarial distractors",
+         "Targets with an exactly matching supplied value per parameter are surrounded by near-miss inputs and distractor converters (same-named chains, providers, bidirectional pairs, failing and run-once ones); the monitor requires success, zero converter executions and the exact ids in the target's arguments, repeated to sample tie-breaks.",
+         "Interface-typed parameters excluded (no exact input exists); sampled shapes only.", "5/C03"),
+ "C04": ("ordered boundary event log + error identity (==) oracle",
+         "Constructive chains/DAGs with independently failing converters at depth 1-6 (all result forms, built, run-once) and failing targets: Err() must be the very error value of the first failing body, that execution must be the last of the call, the target must not run; a second call re-checks cached run-once failures.",
+         "Identity is pointer identity of the generated error values.", "5/C04"),
+ "C05": ("scope classifier + MUST-derivability fix-point reference model; outcome class compared across repetitions",
+         "In-scope scenarios (single-input converter sets with arbitrary cycles; acyclic multi-input sets with every converter satisfiable) with every parameter derivable must succeed (or return a failing converter's error) on each of R repetitions with a stable class; repetitions sample Go's randomized map order and the evidence reports how many distinct execution traces were seen.",
+         "Scope and derivability are judged by the harness's own tables; map order is sampled, not enumerated.", "5/C05"),
+ "C06": ("process-supervised execution (crash journal), recovered-panic monitor, recursion/step bound counters at the verif hook",
+         "Every well-formed generated scenario is pushed through Call, Convert, Redefine and a call of the redefined function in child processes that survive fatal errors; hostile families target mutual recursion and repeated positional types; malformed options must be ignored or reported. Non-termination is restated as bounded progress observed at the reachTarget hook.",
+         "Bounded-progress restatement of termination (depth <= 8(F+3), <= 10^6 resolver steps per API call); wall-clock watchdog firing is inconclusive.", "5/C06"),
+ "C07": ("provenance monitor over a dedicated name-affinity generator",
+         "Competing same-typed named inputs and competing converters (explicit name vs type-only, same output label) in all forms and orders; the monitor checks which input was converted and which converter ran, over repetitions sampling map order.",
+         "Both competing converters declare the same output label; sampled type pairs and names.", "5/C07"),
+ "C13": ("structured-error field oracle against the generated case (labels, multisets, pointer identity)",
+         "Scenarios with a parameter made hopeless by construction: the monitor inspects ErrArgumentUnsatisfied.Args/Inputs/Converters and the message against the case specification and the MUST fix-point.",
+         "Hopelessness is by construction (types T4/T5 unused elsewhere); generator-delivered converters are not required in Converters.", "5/C13"),
 }
 
 NOT_YET = {}
